@@ -311,8 +311,13 @@ impl Property for C16 {
                 o.label_if(*depth >= 100, "depth>=100");
                 // cond IF cond IF … NOP … ENDIF ENDIF
                 let mut cur = vec![El::Op(0x61)];
-                for _ in 0..*depth {
-                    cur = vec![push_el(&alpha(*cond)), El::If { code: *code, pass: cur, fail: Some(vec![El::Op(0x62 + 0)]) }];
+                for k in 0..*depth {
+                    // alternate: even depths nest through the IF branch, odd `cond` values nest through the ELSE branch
+                    cur = if cond % 2 == 1 && k % 2 == 1 {
+                        vec![push_el(&alpha(*cond)), El::If { code: *code, pass: vec![El::Op(0x61)], fail: Some(cur) }]
+                    } else {
+                        vec![push_el(&alpha(*cond)), El::If { code: *code, pass: cur, fail: Some(vec![El::Op(0x61)]) }]
+                    };
                 }
                 let bytes = gs::to_bytes(&cur);
                 match lib_call("Script::from_bytes", || Script::from_bytes(&bytes))? {
